@@ -176,6 +176,48 @@ def history_trial(pr, n, leaf_tpl, ok_sets, shape, order):
     return problems, seq
 
 
+# stateful Django tags inside a quoted argument: every argument SITE has its own nodes, hence its own state (stock Django: every
+# textual occurrence of a tag is an independent node)
+STATEFUL_TEXTS = ["{% cycle 'odd' 'even' %}", "{% ifchanged i %}changed{% endifchanged %}", "{% cycle 'a' 'b' 'c' %}{{ i }}",
+                  "{% cycle 'x' 'y' as cy silent %}{{ cy }}-{% cycle cy %}"]
+SITE_FORMS = [("x=%s", lambda a, k: k["x"]), ("%s", lambda a, k: a[0]), ("x=[%s, 1]", lambda a, k: k["x"][0]),
+              ("x={'k': %s}", lambda a, k: k["x"]["k"]), ("attrs:v=%s", lambda a, k: k["attrs"]["v"])]
+
+
+def site_trial(pr, text, form1, form2, loop, kind):
+    """the SAME quoted stateful text at two argument sites of ONE template; each site must receive what the same text gives as the only
+    site of a fresh template, and what stock Django renders for the inner text in a loop of the same length.  -> (problems, sources)"""
+    from django.template import Template, Context
+
+    def site(form):
+        arg = form[0] % ('"' + text + '"')
+        tag = ("{% component 'c02x' " + arg + " / %}") if kind == "component" else ("{% c02probe " + arg + " / %}")
+        return ("{% for r in l %}" + tag + "{% endfor %}") if loop else tag
+
+    def values(src, forms):
+        pr.calls.clear()
+        Template(src).render(Context(dict(CTX)))
+        n = len(CTX["l"]) if loop else 1
+        if len(pr.calls) != n * len(forms):
+            raise AssertionError("%d calls" % len(pr.calls))
+        return [[forms[j][1](c[1], c[2]) for c in pr.calls[j * n:(j + 1) * n]] for j in range(len(forms))]
+    both = site(form1) + "|" + site(form2)
+    problems = []
+    try:
+        got = values(both, [form1, form2])
+        alone = [values(site(form1), [form1])[0], values(site(form2), [form2])[0]]
+        inner = ("{% for r in l %}" + text + "\x1f{% endfor %}") if loop else (text + "\x1f")
+        stock = Template("{% autoescape off %}" + inner + "{% endautoescape %}").render(Context(dict(CTX))).split("\x1f")[:-1]
+    except Exception as e:  # noqa
+        return (["%s: %s: %s" % (both, type(e).__name__, e)], [both])
+    for j in (0, 1):
+        if not same(got[j], alone[j]):
+            problems.append("site %d of %s receives %r; the same argument as the only site of a fresh template receives %r" % (j + 1, both, got[j], alone[j]))
+        if not same([str(v) for v in got[j]], stock):
+            problems.append("site %d of %s receives %r; stock Django renders the inner text as %r" % (j + 1, both, got[j], stock))
+    return problems, [both, site(form1), site(form2)]
+
+
 def django_parser():
     from django.template import engines
     from django.template.base import Parser
@@ -862,6 +904,16 @@ def run(tier, seed):
                         chk.count(("history", leaf_tpl, shape[0], order), True, kind="history-filter-libraries")
                         if problems:
                             chk.fail(T_HISTORY, problems[0], {"kind": "history", "sources": seq, "problems": problems[:4]})
+            # the same STATEFUL nested-template text at two argument sites of one template: sites are independent
+            for text in STATEFUL_TEXTS:
+                for loop in (True, False):
+                    for kind in ("probe", "component"):
+                        pairs = [(SITE_FORMS[0], SITE_FORMS[0]), (SITE_FORMS[0], rng.choice(SITE_FORMS[1:])), (rng.choice(SITE_FORMS), rng.choice(SITE_FORMS))]
+                        for f1, f2 in (pairs + [(a, b) for a in SITE_FORMS for b in SITE_FORMS] if thorough else pairs):
+                            problems, seq = site_trial(pr, text, f1, f2, loop, kind)
+                            chk.count(("sites", text, f1[0], f2[0], loop, kind), True, kind="history-stateful-text-two-sites")
+                            if problems:
+                                chk.fail(T_HISTORY, problems[0], {"kind": "history", "sources": seq, "problems": problems[:4]})
             # the same tag text in another template (other surroundings, an unrelated {% load %}), later in the process: identical result
             for (kind, body, slash, first) in rerender:
                 head = "component 'c02x'" if kind == "component" else "c02probe"
@@ -925,8 +977,9 @@ def run(tier, seed):
              "printed argument lists and %d undocumented forms for M-model == implementation only; context values include non-dict Mappings (MappingProxyType, "
              "UserDict, ChainMap) and non-list iterables (tuple, range, dict keys view, frozenset, str) at every spread position; history: the same argument "
              "text in templates that differ only in {%% load %%} of two harness-registered filter libraries with overlapping filter names, rendered in "
-             "every order within the process (oracle: stock {{ expr }} of the same template / TemplateSyntaxError where not loaded), and one layout of every "
-             "structure re-rendered inside another template. Non-trivial = the body contains a container, filter, spread or key. Distinct = distinct "
+             "every order within the process (oracle: stock {{ expr }} of the same template / TemplateSyntaxError where not loaded), one layout of every "
+             "structure re-rendered inside another template, and the same stateful nested-template text ({%% cycle %%}, {%% ifchanged %%}) at two argument "
+             "sites of one template (two loops / two calls / kwarg, list, dict, aggregate forms; oracle: site-independence and stock rendering of the inner text). Non-trivial = the body contains a container, filter, spread or key. Distinct = distinct "
              "(tag, body)." % (n_lay, len(INVALID), len(EXPLORE)),
         explanation="theorems of Props/C02.v re-checked by coqc (parse_print_denote for the full grammar, all layouts); per generated case: (direct) independent "
                     "denotation (Python list/dict semantics + Django leaf evaluation) == what the receivers get, and all layouts of one structure agree; (S) inside "
@@ -950,9 +1003,17 @@ def replay(path):
         if case.get("kind") == "history":
             libs = FilterLibs()
             libs.install()
+            from django.template import Template, Context
             for src in case["sources"]:
                 print("source:", src)
-                print("observed:", pr.run(src, CTX)[:4])
+                pr.calls.clear()
+                try:
+                    Template(src).render(Context(dict(CTX)))
+                    print("observed:", [(c[1], c[2]) for c in pr.calls])
+                except Exception as e:  # noqa
+                    print("observed:", type(e).__name__, e)
+            for p in case.get("problems", []):
+                print("problem:", p)
             libs.uninstall()
             return 0
         kind = case.get("kind", "probe")
